@@ -123,9 +123,14 @@ def check_basis_case(ctx, rng, n, dt, kind, method, gen):
         # distinct eigenvalues: compare with the float64 reference iteration column by column up to sign
         qref, it = ref_orthogonal_iteration(Ad, est, iters, tol)
         m = (qref.T @ Q).abs()
-        if it <= 5 and float((torch.diagonal(m) - 1).abs().max()) > 1e-6:
+        # orthogonal iteration amplifies rounding errors by (lambda_max / lambda_i) per step (the dominant direction leaks into the
+        # other columns): column-wise comparisons are only meaningful while that amplification of one ulp stays far below the tolerance
+        lpos = lam[lam > 0]
+        amplification = (float(lpos.max() / lpos.min()) ** it) * 1e-16 if len(lpos) else float("inf")
+        stable = amplification < 1e-9
+        if stable and float((torch.diagonal(m) - 1).abs().max()) > 1e-6:
             probs.append(("orthogonal_iteration_update", "columns of the reference update up to sign", [round(float(x), 8) for x in torch.diagonal(m)][:8]))
-        if est_kind == "exact" and float(lam.min()) > 0:
+        if stable and est_kind == "exact" and float(lam.min()) > 0:
             m0 = (est.to(F64).T @ Q).abs()
             # fixed point up to column signs (and the final re-ordering, which is the identity for an ascending exact basis)
             if float((torch.diagonal(m0) - 1).abs().max()) > 1e-6:
